@@ -231,6 +231,7 @@ static int c06_share_main (int argc, char **argv) {
     }
     for (unsigned ri = 0; ri < 6; ri++) {
       if (!big && rs_quick[ri] > 3) continue;
+      if (vx_opt_long ("noclones", 0) && rs_quick[ri] > 3) continue;
       if (big >= 2 && rs_quick[ri] > 3 && rs_quick[ri] != 65536) continue;
       for (int ord = 0; ord < 2; ord++) { if (big >= 2 && rs_quick[ri] > 3 && ord) continue; add_share ("clones", "program", rs_quick[ri], "clone", ord); }
     }
